@@ -22,7 +22,10 @@ RULES = [(r" < ", " <= "), (r" <= ", " < "), (r" > ", " >= "), (r" >= ", " > "),
          (r"\bceil_mul\(", "floor_mul("), (r"\bfloor_mul\(", "ceil_mul("), (r"\bmax\(", "min("), (r"\bmin\(", "max("),
          (r"::ALIGN\b", "::SIZE"), (r"\bSelf::DATA_OFFSET\b", "Self::ALIGN"), (r" == 0\b", " != 0"), (r" != 0\b", " == 0"),
          (r"\bto_le_bytes\b", "to_be_bytes"), (r"\bto_be_bytes\b", "to_le_bytes"), (r"\bfrom_le_bytes\b", "from_be_bytes"), (r"\bfrom_be_bytes\b", "from_le_bytes"),
-         (r"<true, ", "<false, "), (r"<false, ", "<true, "), (r", true>", ", false>"), (r", false>", ", true>")]
+         (r"<true, ", "<false, "), (r"<false, ", "<true, "), (r", true>", ", false>"), (r", false>", ", true>"),
+         (r" && ", " || "), (r" \|\| ", " && "), (r" \+= ", " -= "), (r"\.map_err\(\|e\| e\.offset\([^()]*(?:\([^()]*\)[^()]*)*\)\)", ""),
+         (r"\bSelf::OFFSET_SIZE\b", "Self::ALIGN"), (r"\bT::SIZE\b", "T::ALIGN"), (r"\bL::SIZE\b", "L::ALIGN"), (r"\bpoisoned = true\b", "poisoned = false"),
+         (r"\.clear\(\);", ";"), (r"\bwindow\.start\b", "window.end")]
 
 def sites():
     out = []
